@@ -2,6 +2,7 @@
 From Coq Require Import List ZArith Bool.
 Import ListNotations.
 From LV Require Import Goose.Epoch Goose.EpochProofs Goose.Warmup Goose.WarmupProofs.
+From LV Require Import Goose.EpochBuilder Goose.EpochBuilderProofs.
 Open Scope Z_scope.
 
 Theorem C16_accept_iff_valid : forall l : list econf, accepts l = valid l.
@@ -54,3 +55,52 @@ Theorem C16_chunk_greatest : forall l d,
   (forall c, In c (tl l) -> (d | dur c)) -> (d | chunk_len l).
 Proof. exact chunk_greatest. Qed.
 Print Assumptions C16_chunk_greatest.
+
+(* ---- EngineBuilder glue (set_epochs / set_duration / build) and the engine's chunk loop ---- *)
+Theorem C16_chunk_positive : forall l c, valid l = true -> In c (tl l) -> 1 <= chunk_len l.
+Proof. exact chunk_positive. Qed.
+Print Assumptions C16_chunk_positive.
+
+Theorem C16_builder_set_epochs_spec : forall l,
+  (valid l = true -> builder_set_epochs l = BOk l (chunk_len l))
+  /\ (valid l = false -> builder_set_epochs l = BRuntimeError).
+Proof. exact builder_set_epochs_spec. Qed.
+Print Assumptions C16_builder_set_epochs_spec.
+
+Theorem C16_builder_chunk_divides : forall l l' ch,
+  builder_set_epochs l = BOk l' ch ->
+  l' = l /\ valid l = true
+  /\ forall c, In c (tl l') -> 1 <= ch /\ (ch | dur c) /\ transitions (dur c) ch = dur c.
+Proof. exact builder_chunk_divides. Qed.
+Print Assumptions C16_builder_chunk_divides.
+
+Theorem C16_builder_set_duration_ok : forall w p t thp thw,
+  admissible w p default_init t default_base thp thw ->
+  exists l ch,
+    builder_set_duration w p t thp thw = BOk l ch
+    /\ stan_epochs w p default_init t default_base thp thw = SOk l
+    /\ valid l = true
+    /\ sum_dur (warmup_part l) = w
+    /\ ch = chunk_len l /\ 1 <= ch
+    /\ forall c, In c (tl l) -> (ch | dur c).
+Proof. exact builder_set_duration_ok. Qed.
+Print Assumptions C16_builder_set_duration_ok.
+
+Theorem C16_builder_set_duration_rejects : forall w p t thp thw,
+  w < 20 \/ w < default_init + t + default_base ->
+  builder_set_duration w p t thp thw = BValueError.
+Proof. exact builder_set_duration_rejects. Qed.
+Print Assumptions C16_builder_set_duration_rejects.
+
+Theorem C16_run_epoch_fails_iff : forall c n tb ch,
+  1 <= ch -> (run_epoch (to_state c n tb) ch = None <-> ~ (ch | dur c)).
+Proof. exact run_epoch_fails_iff. Qed.
+Print Assumptions C16_run_epoch_fails_iff.
+
+Theorem C16_builder_epochs_run_to_end : forall l l' ch c n tb,
+  builder_set_epochs l = BOk l' ch -> In c (tl l') ->
+  exists s', run_epoch (to_state c n tb) ch = Some s'
+    /\ f_cfg s' = c /\ f_nth s' = n /\ f_before s' = tb
+    /\ f_in s' = dur c /\ f_time s' = tb + dur c /\ time_left s' = 0.
+Proof. exact builder_epochs_run_to_end. Qed.
+Print Assumptions C16_builder_epochs_run_to_end.
